@@ -993,23 +993,15 @@ impl UnifiedCommandExecutor {
     fn execute_sorted_set(&self, db: usize, cmd: SortedSetCommand) -> Result<RespFrame> {
         match cmd {
             SortedSetCommand::ZAdd { key, score_members } => {
-                let mut added = 0;
-                for (score, member) in score_members {
-                    if self.storage.zadd(db, key.clone(), member, score)? {
-                        added += 1;
-                    }
-                }
-                Ok(RespFrame::Integer(added))
+                // One storage call for the whole command (the key's deadline is tested once)
+                let added = self.storage.zadd_many(db, key, score_members)?;
+                Ok(RespFrame::Integer(added as i64))
             }
             
             SortedSetCommand::ZRem { key, members } => {
-                let mut removed = 0;
-                for member in members {
-                    if self.storage.zrem(db, &key, &member)? {
-                        removed += 1;
-                    }
-                }
-                Ok(RespFrame::Integer(removed))
+                // One storage call for the whole command (the key's deadline is tested once)
+                let removed = self.storage.zrem_many(db, &key, &members)?;
+                Ok(RespFrame::Integer(removed as i64))
             }
             
             SortedSetCommand::ZScore { key, member } => {
@@ -1113,22 +1105,10 @@ impl UnifiedCommandExecutor {
                 let count_val = count.unwrap_or(1);
                 let mut popped = Vec::new();
                 
-                for _ in 0..count_val {
-                    // Get the member with lowest score (rank 0)
-                    let members = self.storage.zrange(db, &key, 0, 0, false)?;
-                    if let Some((member, score)) = members.into_iter().next() {
-                        // Remove the member atomically
-                        if self.storage.zrem(db, &key, &member)? {
-                            popped.push(RespFrame::from_bytes(member));
-                            popped.push(RespFrame::from_string(score.to_string()));
-                        } else {
-                            // Member was removed by another operation, stop
-                            break;
-                        }
-                    } else {
-                        // No more members in the sorted set
-                        break;
-                    }
+                // One storage call for the whole command (the key's deadline is tested once)
+                for (member, score) in self.storage.zpop(db, &key, count_val, true)? {
+                    popped.push(RespFrame::from_bytes(member));
+                    popped.push(RespFrame::from_string(score.to_string()));
                 }
                 
                 if popped.is_empty() {
@@ -1141,22 +1121,10 @@ impl UnifiedCommandExecutor {
                 let count_val = count.unwrap_or(1);
                 let mut popped = Vec::new();
                 
-                for _ in 0..count_val {
-                    // Get the member with highest score (rank -1)
-                    let members = self.storage.zrange(db, &key, -1, -1, false)?;
-                    if let Some((member, score)) = members.into_iter().next() {
-                        // Remove the member atomically
-                        if self.storage.zrem(db, &key, &member)? {
-                            popped.push(RespFrame::from_bytes(member));
-                            popped.push(RespFrame::from_string(score.to_string()));
-                        } else {
-                            // Member was removed by another operation, stop
-                            break;
-                        }
-                    } else {
-                        // No more members in the sorted set
-                        break;
-                    }
+                // One storage call for the whole command (the key's deadline is tested once)
+                for (member, score) in self.storage.zpop(db, &key, count_val, false)? {
+                    popped.push(RespFrame::from_bytes(member));
+                    popped.push(RespFrame::from_string(score.to_string()));
                 }
                 
                 if popped.is_empty() {
@@ -1166,29 +1134,21 @@ impl UnifiedCommandExecutor {
             }
             
             SortedSetCommand::ZRemRangeByRank { key, start, stop } => {
-                let members = self.storage.zrange(db, &key, start, stop, false)?;
-                let mut removed = 0;
+                let members: Vec<Vec<u8>> = self.storage.zrange(db, &key, start, stop, false)?
+                    .into_iter().map(|(member, _score)| member).collect();
+                // One storage call for the removal (the key's deadline is tested once)
+                let removed = self.storage.zrem_many(db, &key, &members)?;
                 
-                for (member, _score) in members {
-                    if self.storage.zrem(db, &key, &member)? {
-                        removed += 1;
-                    }
-                }
-                
-                Ok(RespFrame::Integer(removed))
+                Ok(RespFrame::Integer(removed as i64))
             }
             
             SortedSetCommand::ZRemRangeByScore { key, min_score, max_score } => {
-                let members = self.storage.zrangebyscore(db, &key, min_score, max_score, false)?;
-                let mut removed = 0;
+                let members: Vec<Vec<u8>> = self.storage.zrangebyscore(db, &key, min_score, max_score, false)?
+                    .into_iter().map(|(member, _score)| member).collect();
+                // One storage call for the removal (the key's deadline is tested once)
+                let removed = self.storage.zrem_many(db, &key, &members)?;
                 
-                for (member, _score) in members {
-                    if self.storage.zrem(db, &key, &member)? {
-                        removed += 1;
-                    }
-                }
-                
-                Ok(RespFrame::Integer(removed))
+                Ok(RespFrame::Integer(removed as i64))
             }
             
             SortedSetCommand::ZRemRangeByLex { key: _, min_lex: _, max_lex: _ } => {
